@@ -26,9 +26,14 @@ AfterStart(dd, top, sp, lo) ==
   IN dd \o <<Node("elem", top, sp, lo, <<>>)>> \o [i \in 1..Len(inh) |-> Node("ns", e, <<>>, dd[inh[i]].lo, dd[inh[i]].v)]
 \* the tree after a namespace declaration on element e: overrides an inherited binding of
 \* the same prefix in place, otherwise adds a node
+\* An empty prefix with an empty URI (xmlns="") undeclares the default namespace: the element has
+\* no namespace node for it.  (Only namespace nodes of e follow e at this point, so removing one
+\* does not disturb any parent reference.)
 AfterNs(dd, e, pre, uri) ==
   LET same == {m \in NsOf(dd, e) : dd[m].lo = pre}
-  IN IF same # {} THEN [dd EXCEPT ![CHOOSE m \in same : TRUE].v = uri]
+  IN IF pre = <<>> /\ uri = <<>> THEN
+       (IF same = {} THEN dd ELSE LET m == CHOOSE x \in same : TRUE IN SubSeq(dd, 1, m - 1) \o SubSeq(dd, m + 1, Len(dd)))
+     ELSE IF same # {} THEN [dd EXCEPT ![CHOOSE m \in same : TRUE].v = uri]
      ELSE Append(dd, Node("ns", e, <<>>, pre, uri))
 
 \* the Parser contract (parser/parser.go): which event may come next
